@@ -32,11 +32,14 @@ def _work(args):
     texts = [grouprun.member_text(mc, ident=idents[i] or None) for i, mc in enumerate(members)]
     # errors and early endings: a member that collects errors (the scratch policy is collect, print: nothing is raised),
     # and sometimes a first member that fails and stops at once
-    if rng.random() < 0.5:
+    early = rng.random() < 0.3
+    # (an early member that fails and stops at once is followed by a member that collects errors more often than not: what the run
+    # manifest sums must not depend on what earlier members already settled)
+    if rng.random() < (0.8 if early else 0.5):
         j = rng.randrange(len(texts))
         boom = rng.choice(["@boom = mod(5, 0)", "line_number() == 1 -> @boom = mod(5, 0)", "@boom = mod(5, 0) @boom2 = mod(7, 0)"])
         texts[j] = texts[j][: texts[j].rindex("]")] + f" {boom} ]"
-    if rng.random() < 0.3:
+    if early:
         members = [{"prog": {"scan": lang.scan("all"), "comps": [], "initVars": [], "meta": []}, "cfg": dict(members[0]["cfg"])}] + members
         idents = ["early"] + idents
         texts = ["~ id: early ~ $data[*][ fail() stop() ]"] + texts
